@@ -68,41 +68,36 @@ Theorem C02_exec_agrees_with_table_view :
 Proof. exact exec_agrees_with_table_view. Qed.
 Print Assumptions C02_exec_agrees_with_table_view.
 
-(* ERROR PATHS.  Full statement (FALSE of the code as written, see the _refuted theorems):
+(* ERROR PATHS.  Full statement:
      forall p pc s, err_discipline p pc s
    i.e. wherever a script error raised inside an instruction leaves the VM (Execute prints the
    warning and calls Process again) is a normal successor of that instruction: same code
-   position, same height.  Proved for every opcode outside [err_defective]: *)
+   position, same height.  [err_defective] is computed from the error-path table of the model
+   (Model.err_table, written after the hand-written catch blocks of Process); the statement is
+   proved for every opcode outside it, hence in full as soon as it is empty. *)
 Theorem C02_error_path_preserves_discipline_partial :
   forall p pc s op, byte p pc = Some op -> ~ In op err_defective -> err_discipline p pc s.
 Proof. exact error_path_preserves_discipline_partial. Qed.
 Print Assumptions C02_error_path_preserves_discipline_partial.
 
-Theorem C02_error_path_preserves_discipline_refuted :
-  exists p pc s, ~ err_discipline p pc s.
-Proof. exact error_path_preserves_discipline_refuted. Qed.
-Print Assumptions C02_error_path_preserves_discipline_refuted.
+Theorem C02_error_path_preserves_discipline_if_no_defect :
+  err_defective = [] -> forall p pc s, err_discipline p pc s.
+Proof. exact error_path_preserves_discipline_if_no_defect. Qed.
+Print Assumptions C02_error_path_preserves_discipline_if_no_defect.
 
-(* the individual defects (each confirmed on the real interpreter by the dynamic probe) *)
-Theorem C02_error_path_STORE_FIELD_refuted :
-  refutes (wprog [OP_STORE_FIELD; 1;0;0;0; 0;0;0;0; OP_DONE]) 0 (mkA 1 None).
-Proof. exact error_path_STORE_FIELD_refuted. Qed.
-Print Assumptions C02_error_path_STORE_FIELD_refuted.
+(* On the current tree (after the fix commits e516f4d, 1b3be9a, 14e888f that this unit's findings
+   led to) no row of the table is defective, so the full statement holds.  Before them it was
+   refuted by OP_STORE_OWNER (two pushes with a NULL self), OP_LOAD_STORE_SELF_VAR and
+   OP_STORE_FIELD_REF (operands not skipped), loadTop (no pop when the setter throws),
+   OP_STORE_FIELD (operands skipped twice) and, in between, OP_LOAD_FIELD_VAR (three pops). *)
+Theorem C02_err_defective_now : err_defective = [].
+Proof. exact err_defective_now. Qed.
+Print Assumptions C02_err_defective_now.
 
-Theorem C02_error_path_STORE_FIELD_REF_refuted :
-  refutes (wprog [OP_STORE_FIELD_REF; 1;0;0;0; 0;0;0;0; OP_DONE]) 0 (mkA 1 None).
-Proof. exact error_path_STORE_FIELD_REF_refuted. Qed.
-Print Assumptions C02_error_path_STORE_FIELD_REF_refuted.
-
-Theorem C02_error_path_LOAD_STORE_SELF_VAR_refuted :
-  refutes (wprog [OP_LOAD_STORE_SELF_VAR; 1;0;0;0; 0;0;0;0; OP_DONE]) 0 (mkA 1 None).
-Proof. exact error_path_LOAD_STORE_SELF_VAR_refuted. Qed.
-Print Assumptions C02_error_path_LOAD_STORE_SELF_VAR_refuted.
-
-Theorem C02_error_path_LOAD_VAR_refuted :
-  refutes (wprog [OP_LOAD_LOCAL_VAR; 1;0;0;0; 0;0;0;0; OP_DONE]) 0 (mkA 1 None).
-Proof. exact error_path_LOAD_VAR_refuted. Qed.
-Print Assumptions C02_error_path_LOAD_VAR_refuted.
+Theorem C02_error_path_preserves_discipline :
+  forall p pc s, err_discipline p pc s.
+Proof. exact error_path_preserves_discipline. Qed.
+Print Assumptions C02_error_path_preserves_discipline.
 
 (* ------------------------------------------------------------------ non-vacuity *)
 
